@@ -255,6 +255,10 @@ func Check(env *core.Env, rep *core.Report) *core.Result {
 		validated += a
 	}
 
+	// nested pipelines built from configuration files, through the binary
+	nestedBin := NestedBinCheck(env, rep, map[bool]int{false: 24, true: 400}[thorough])
+	validated += nestedBin
+
 	// binding self-test: a corrupted trace must be rejected
 	selftest := bindingSelfTest(env, byN)
 
@@ -274,6 +278,7 @@ func Check(env *core.Env, rep *core.Report) *core.Result {
 		"repository_tests_as_trace_sources":       repoInfo,
 		"real_runner_barrier_pipelines":           realBarrierRuns,
 		"whole_binary_traces_against_Taskctl_tla": composeInfo,
+		"nested_pipelines_through_the_binary":     nestedBin,
 		"samples":                                 samples.List(),
 		"checker_cmds":                            cmds,
 		"exhaustive":                              true,
